@@ -716,6 +716,11 @@ impl Context {
                     true,
                 )
             }
+            (Literal::String(s), CodegenTy::Vec(inner)) if matches!(**inner, CodegenTy::U8) => {
+                // binary field annotated `pilota.rust_type = "vec"`
+                let s = &**s;
+                (format! { "\"{s}\".as_bytes().to_vec()" }.into(), false)
+            }
             (
                 Literal::Map(m),
                 CodegenTy::Adt(AdtDef {
